@@ -342,3 +342,41 @@ pub fn int_consts(file: &syn::File) -> BTreeMap<String, String> {
     }
     out
 }
+
+/// order in which the given call names first occur in a function body (token order)
+pub fn call_order(block: &syn::Block, names: &[&str]) -> Vec<String> {
+    let toks: Vec<String> = block
+        .to_token_stream()
+        .into_iter()
+        .flat_map(flatten)
+        .collect();
+    let mut found: Vec<(usize, String)> = vec![];
+    for n in names {
+        for (i, t) in toks.iter().enumerate() {
+            if t == n && toks.get(i + 1).map(|x| x == "(").unwrap_or(false) {
+                found.push((i, n.to_string()));
+                break;
+            }
+        }
+    }
+    found.sort();
+    found.into_iter().map(|(_, n)| n).collect()
+}
+
+fn flatten(tt: proc_macro2::TokenTree) -> Vec<String> {
+    match tt {
+        proc_macro2::TokenTree::Group(g) => {
+            let (o, c) = match g.delimiter() {
+                proc_macro2::Delimiter::Parenthesis => ("(", ")"),
+                proc_macro2::Delimiter::Brace => ("{", "}"),
+                proc_macro2::Delimiter::Bracket => ("[", "]"),
+                proc_macro2::Delimiter::None => ("", ""),
+            };
+            let mut v = vec![o.to_string()];
+            v.extend(g.stream().into_iter().flat_map(flatten));
+            v.push(c.to_string());
+            v
+        }
+        other => vec![other.to_string()],
+    }
+}
